@@ -30,6 +30,14 @@ CLAIMED = {
    technique="Coq proofs characterising exactly when each decoder model returns an error (total functions over the whole proto AST) + differential run on structured-invalid messages and byte-level mutants (panics caught per call)",
    text="C13_{lds,rds,cds,eds,nds}_error_iff, C13_wellformed_accepted, C13_spec_holds_of_model: the decoder models are total over every tree proto.Unmarshal can return, and return an error iff some resource has a wrong type url / does not parse / has a route without match or action / empty RDS name / (NDS) is missing. PARTIAL: the bytes->tree step is protobuf-go's and is differential-tested (truncations, bit flips, overwrites, url swaps), not proved; absence of panics in the Go code is observed per call, and argued in the model by the absence of partial operations.",
    note="Trusted: as C11; the nil-safety of each Go field access was established by reading (getters/guards), the run catches panics on every generated input incl. one-absent-at-a-time variants."),
+ "C08": dict(engine="pure", design="5 C08",
+   technique="Coq proofs (list splitting for first-match, iff characterisations of route predicates, precedence by case analysis) about the router model + differential run of XDSRouter.Route on tables decoded by the real decoders",
+   text="C08_first_match_http/_thrift (first matching route in listing order, by list splitting), C08_conditions_http/_thrift (path condition and EVERY header condition; absent key false), C08_precedence, C08_inline_before_named, C08_named_when_inline_misses, C08_no_match_is_error are proved for all tables, calls and regex oracles. Tied to router.go/rds.go/matcher.go by routing generated calls through the public XDSRouter.Route (real RegexMatcher, default and custom metadata extractor, both transports) and comparing the route used; the executable spec is evaluated on the SOURCE tables the control plane sent. Known finding D12 (conditions on one header name collapse) is reported as KNOWN-FINDING when and only when the code-faithful model explains the observation.",
+   note="Trusted: Coq kernel; truth of regex conditions computed with Go regexp and shipped as oracle data; lookups served by a fake manager. Theorems are on decoded tables; decoded-vs-sent is C11."),
+ "C15": dict(engine="pure", design="5 C15",
+   technique="Coq proofs about the routing-step / retry-key / resolver model + differential run of the real middleware, retry key function and resolver on a fault-injecting manager",
+   text="C15_decides_once, C15_already_decided_noop, C15_fail_closed, C15_never_twice, C15_passed_on_iff, C15_error_iff, C15_listener_unavailable, C15_named_table_unavailable, C15_destination_from_route, C15_key_effect, C15_resolver_* are proved for every lookup outcome. The real NewXDSRouterMiddleware, genRetryServiceKey (through the retry container) and XDSResolver are run with each lookup failing in each way; next-count, tag, lock, timeout, error class and recovered panics are compared with the model.",
+   note="Trusted: Coq kernel; lookups return a resource of the requested kind or an error (C05); ri.To() is a Kitex remoteinfo. 'Never panics' is totality of the model + per-call panic recovery in the run."),
 }
 
 checks = []
